@@ -44,8 +44,8 @@ ASSUMPTIONS = [
     "not the id of one of its own groups (guaranteed by the library's configuration gate: assert_app rejects a group "
     "whose id is an argument id)",
     "sequence theorems are stated over folds of `react` (the function Parser::parse calls for every occurrence); the "
-    "connection to token lists (lexing, pending values) is a theorem for the scanned class (C07_loop_occurrences, "
-    "C07_top_*: hypotheses are evaluated on the BUILT command build_self(with_bin c0 bin); ignore_errors off; binary "
+    "connection to token lists (lexing, pending values) is a theorem for the scanned classes (C07_loop_occurrences / "
+    "C07_top_*, round 3: C07_wide_loop / C07_wide_top_* / C07_chain_levels: hypotheses are evaluated on the BUILT command build_self(with_bin c0 bin); ignore_errors off; binary "
     "name dropped) and is covered by the correspondence run and the direct oracle outside it",
     "explicit self-override (overrides_with(self)) on an Append or Count argument is outside the property text; the "
     "theorems state what the code does (Append: earlier occurrences dropped; Count: counting continues), the oracle "
@@ -55,8 +55,12 @@ TECHNIQUE = ("Coq proof (exact characterisation of remove_overrides; master sing
              "every matcher state; refinement of folds of react to an abstract per-argument fold; induction over the "
              "number of occurrences for the saturating counter; induction over the token list with a pending-buffer "
              "invariant showing that the token loop of Parser::parse is the fold of react over a declaratively scanned "
-             "occurrence list, composed with the post-loop phases up to parse_top) + extracted-model/implementation "
-             "correspondence + direct python oracle from the property text")
+             "occurrence list, composed with the post-loop phases up to parse_top; round 3: a step-by-step simulation "
+             "between the loop's control state (parse state, positional counter, trailing flag, pending buffer) and a "
+             "scanner that mirrors only that control state, for positionals / `--` / options with any value range; "
+             "the parse_top theorems proved once for an abstract class of lines and instantiated; closed form of the "
+             "abstract fold for arbitrary override graphs; composition with C09's level isolation for subcommand chains) "
+             "+ extracted-model/implementation correspondence + direct python oracle from the property text")
 LEVEL_TEXT = ("Machine-checked theorems (Coq 8.16, closed under the global context) about the executable model of "
               "Parser::{parse (token loop), parse_long_arg, parse_short_arg, parse_opt_value, resolve_pending, react, "
               "remove_overrides, start_custom_arg, push_arg_values}, the post-loop phases and ArgMatcher/MatchedArg/FlatMap: "
@@ -74,16 +78,33 @@ LEVEL_TEXT = ("Machine-checked theorems (Coq 8.16, closed under the global conte
               "occurrences in order with boundaries, Set = last occurrence / ArgumentConflict on a repeat without "
               "self-override, SetTrue/SetFalse truth value or opposite default, override removal in both orders of "
               "appearance, defaults only for absent arguments, and the modelled typed view (get_count = min(n,255) for all "
-              "n >= 0, get_flag = truth value / opposite default).  The model "
+              "n >= 0, get_flag = truth value / opposite default).  Round 3: the same for the WIDE class (scanner "
+              "`woccurrences`): positional values with the positional counter stepping as Parser::parse steps it (one "
+              "occurrence per maximal run of a multi-valued positional, one occurrence PER VALUE of an Append positional "
+              "with num_args(1): C07_wide_positional_per_value, all value lists), the escape `--` with trailing indices, "
+              "options with any value range (optional values, default_missing_value, delimiters, value terminators; a "
+              "value-less occurrence of an Append option without default-missing is an EMPTY group that survives: "
+              "C07_wide_bare_append, n empty groups for all n) - loop = fold from every control state "
+              "(C07_wide_loop_any_state) and every closed form at parse_top (C07_wide_top_*); arbitrary override "
+              "graphs: what an argument holds is the fold of its own occurrences after the LAST occurrence of any "
+              "argument related to it in either direction (C07_override_graph_fold, C07_*_override_graph, Count / Append "
+              "closed forms without any override-freeness hypothesis); lines that select subcommands: at EVERY level of "
+              "the chain the entries are the fold over that level's own occurrences (C07_chain_levels, via C09's level "
+              "isolation; C07_chain_levels_top at parse_top for trees without global arguments; per-level Count/Append closed forms); the default of a flag is derived from Arg::_build for "
+              "arguments of the unbuilt definition, required or not, so an overridden required flag reports the action's "
+              "default (C07_built_flag_default, C07_wide_overridden_flag_default).  The model "
               "is tied to clap_builder by running the extracted model and the real crate on the same generated "
               "commands and argument vectors on every check (the concrete lines of the proofs' non-vacuity examples are "
               "corpus cases), and an independent python oracle (scan + fold by "
               "action) is applied to the implementation's output, including the typed getters.")
 LEVEL_NOTE = ("Trusted: Coq kernel, extraction, OCaml driver, Rust harness, generators/oracle. The link between token "
-              "lists and the sequence of react calls is proved for the scanned class (flags, clusters, one-value options "
-              "in all five spellings; see docs/notes/C07.md) and differential outside it: positionals and `--`, options "
-              "with optional/multiple values or require_equals, hyphen-value arguments, missing values, subcommand "
-              "dispatch; the typed getters are oracle-only.")
+              "lists and the sequence of react calls is proved for two scanned classes (round 2: flags, clusters, one-value "
+              "options in all five spellings; round 3: additionally positionals, `--`, options with any value range, value "
+              "terminators; subcommand chains whose inner levels are option prefixes; see docs/notes/C07.md) and "
+              "differential outside them: require_equals, hyphen-value / negative-number arguments, `last` / "
+              "allow_missing_positional / low-index multiple positionals (positional counter correction), inferred long "
+              "prefixes, positionals before a subcommand name, the globals merge across levels, ignore_errors; the typed "
+              "getters of the real ArgMatches are oracle-only (get_count/get_flag have a modelled view).")
 
 chance = gen_cmd.chance
 pick = gen_cmd.pick
